@@ -39,7 +39,17 @@ static const char* const kind_names[] = {"polygon", "flexpath.simple", "flexpath
 static const char* const coord_names[] = {"plain", "half_grid", "extreme_min", "extreme_span"};
 static const char* const rep_names[] = {"none", "rectangular2x2", "regular2x2", "explicit", "explicit_x"};
 static const char* const refrep_names[] = {"none", "rectangular2x3", "regular_aligned2x3", "regular_skew2x3", "explicit"};
-static const char* const props_names[] = {"none", "1:a", "2:ab", "1:a+2:ab"};
+// 4..14: general (named) properties mixed with GDSII properties, written in the order the setters are called
+// (every setter prepends, so the list order is the reverse).  G1 = set_gds_property(1,"a"), G2 = (2,"ab");
+// Nu/Ni/Nr/Ns/Nb = set_property(name, uint64 / int64 / double / C string / bytes).  Only the GDSII properties
+// can be held by a GDSII file.
+static const char* const props_names[] = {"none", "1:a", "2:ab", "1:a+2:ab",
+                                          "Nu,G1", "G1,Nu", "Ni,G1,G2", "G1,Ni,G2", "G1,G2,Ns", "Nr,G1", "G1,Nr,Nb", "Nr,G2,Nb", "G2,Nb", "Ns,Ni,G1", "G1,N(u+s),G2"};
+static const int props_count = 15;
+inline int props_gds(int props) {  // which GDSII properties the list holds: bit 0 = 1:"a", bit 1 = 2:"ab"
+    static const int g[] = {0, 1, 2, 3, 1, 1, 3, 3, 3, 1, 1, 2, 2, 1, 3};
+    return g[props];
+}
 static const char* const end_names[] = {"flush", "half_width", "extended", "round"};
 // rotations 4..8 are the doubles r for which r * (180.0 / M_PI) -- the ANGLE value gdstk stores -- is exactly a
 // power of 16 in degrees (boundary of the base-16 exponent of the GDSII 8-byte real), see angle_for_degrees()
@@ -225,8 +235,32 @@ inline void offset_extent(const Repetition& r, Vec2& lo, Vec2& hi) {
     }
 }
 inline void set_props(Property*& p, int props) {
-    if (props == 1 || props == 3) set_gds_property(p, 1, "a");
-    if (props == 2 || props == 3) set_gds_property(p, 2, "ab");
+    if (props <= 3) {
+        if (props == 1 || props == 3) set_gds_property(p, 1, "a");
+        if (props == 2 || props == 3) set_gds_property(p, 2, "ab");
+        return;
+    }
+    static const uint8_t bytes[] = {0x00, 0x41, 0xff, 0x00};
+    auto G1 = [&]() { set_gds_property(p, 1, "a"); };
+    auto G2 = [&]() { set_gds_property(p, 2, "ab"); };
+    auto Nu = [&]() { set_property(p, "NU", (uint64_t)7, true); };
+    auto Ni = [&]() { set_property(p, "NI", (int64_t)-3, true); };
+    auto Nr = [&]() { set_property(p, "NR", 2.5, true); };
+    auto Ns = [&]() { set_property(p, "NS", "text", true); };
+    auto Nb = [&]() { set_property(p, "NB", bytes, sizeof bytes, true); };
+    switch (props) {
+        case 4: Nu(); G1(); break;
+        case 5: G1(); Nu(); break;
+        case 6: Ni(); G1(); G2(); break;
+        case 7: G1(); Ni(); G2(); break;
+        case 8: G1(); G2(); Ns(); break;
+        case 9: Nr(); G1(); break;
+        case 10: G1(); Nr(); Nb(); break;
+        case 11: Nr(); G2(); Nb(); break;
+        case 12: G2(); Nb(); break;
+        case 13: Ns(); Ni(); G1(); break;
+        case 14: G1(); set_property(p, "NM", (uint64_t)9, true); set_property(p, "NM", "second value", false); G2(); break;
+    }
 }
 inline Tag tag_of(const Elem& e) { return e.tag ? make_tag(32767, 32767) : make_tag(0, 0); }
 
@@ -447,6 +481,8 @@ inline const std::vector<Family>& families() {
         {"reference.real8", REFERENCE, {"rep2", "refl", "mag7", "rot9"}, {2, 2, 7, 9}},
         {"label.real8", LABEL, {"refl", "mag7", "rot9"}, {2, 7, 9}},
         {"library.real8", POLYGON, {"libcfgx", "coord2", "elemvar"}, {6, 2, 7}},
+        // general properties mixed with GDSII properties in every order of 2-3 entries, on every element kind
+        {"properties.mixed", POLYGON, {"propsmix", "elemvar9"}, {11, 9}},
     };
     return F;
 }
@@ -490,6 +526,16 @@ inline LibSpec decode(const Family& fam, int64_t idx, bool heavy) {
         else if (d == "rep2") e.rep = x;  // none, rectangular 2x3
         else if (d == "mag7") e.mag = x;
         else if (d == "rot9") e.rot = x;
+        else if (d == "propsmix") e.props = 4 + x;
+        else if (d == "elemvar9") {
+            static const int kinds[] = {POLYGON, POLYGON, POLYGON, FLEX_SIMPLE, ROBUST_SIMPLE, FLEX_OUTLINE, LABEL, REFERENCE, REFERENCE};
+            e.kind = kinds[x];
+            e.n = x == 0 ? 4 : x == 1 ? 9 : 3;       // 9 vertices: fractured when max_points = 8 (pieces copy the properties)
+            if (x == 2 || x == 3) e.rep = 1;          // repeated polygon / path: one element per offset, each with the properties
+            if (e.kind == FLEX_SIMPLE) e.end = 2;
+            if (e.kind == LABEL) { e.anchor = 4; e.rot = 3; }
+            if (x == 8) { e.rep = 1; e.rot = 1; }     // AREF
+        }
         else if (d == "libcfgx") s.libcfg = 4 + x;
         else if (d == "coord2") e.coord = x ? EXTMIN : PLAIN;
         else if (d == "elemvar") {
